@@ -57,6 +57,7 @@ func verifHasCycle(adj [][]bool) bool {
 }
 
 func verifCycleBody(n int, orders bool) {
+	verifUnwind(400) // the Warshall reference: n^3 iterations
 	verifSymbolicMapOrder(orders)
 	p, adj, undefined := verifGraph(n, true)
 	cyc := verifHasCycle(adj)
@@ -81,7 +82,16 @@ func verifCycleBody(n int, orders bool) {
 // C07: cycles and dangling dependencies are rejected, everything else is accepted.
 func VerifC07_Cycle3() { verifCycleBody(3, false) }
 
-// same with every map iteration order (thorough)
-func VerifC07_Cycle3Orders() { verifCycleBody(3, true) }
+// same with every iteration order of one of the maps involved (thorough): the process table
+// as validateNoCircularDependencies walks it, or the dependency maps as the depth-first
+// helper reads them. (All orders of all maps at once does not exhaust in an hour.)
+func VerifC07_Cycle3Orders() {
+	if verifChooseK("open.order.of", 2) == 0 {
+		verifSymbolicMapOrderIn("validateNoCircularDependencies")
+	} else {
+		verifSymbolicMapOrderIn("GetDependencies")
+	}
+	verifCycleBody(3, true)
+}
 
 func VerifC07_Cycle4() { verifCycleBody(4, false) }
